@@ -69,6 +69,11 @@ class VConst:
     v: object
 
 
+@dataclass
+class VBool:
+    t: object
+
+
 class Ctx:
     """Collects definitional constraints, acceptance conditions and decoder obligations."""
 
@@ -91,6 +96,7 @@ class ApiModel:
         self.classes: dict[str, ast.ClassDef] = {}
         self.enums: dict[str, list[int]] = {}
         self.b2c: dict[int, str] = {}
+        self.consts: dict[str, int] = {}  # module-level integer constants
         for node in self.tree.body:
             if isinstance(node, ast.FunctionDef):
                 self.funcs[node.name] = node
@@ -109,6 +115,13 @@ class ApiModel:
                         self.b2c[k.value[0]] = v.id
                 if isinstance(tgt, ast.Name) and tgt.id == "c2b":
                     self.c2b_src = ast.unparse(node.value)
+                if isinstance(tgt, ast.Name) and node.value is not None:
+                    try:
+                        v = ast.literal_eval(node.value)
+                    except Exception:
+                        v = None
+                    if isinstance(v, int) and not isinstance(v, bool):
+                        self.consts[tgt.id] = v
         if not self.b2c:
             raise Untranslatable("b2c table not found")
         for name, c in self.classes.items():
@@ -173,6 +186,13 @@ class ApiModel:
             if isinstance(st, ast.AnnAssign) and st.value is not None:
                 self.assign(st.target, self.ev(st.value, env, ctx), env)
                 continue
+            if isinstance(st, ast.If) and not st.orelse and len(st.body) == 1 and isinstance(st.body[0], ast.Raise):
+                # `if <cond>: raise ...` -- the value is rejected exactly when cond holds
+                c = self.ev(st.test, env, ctx)
+                if not isinstance(c, VBool):
+                    raise Untranslatable(f"guard {ast.unparse(st.test)[:60]!r}")
+                ctx.accept.append(z3.Not(c.t))
+                continue
             raise Untranslatable(f"statement {ast.unparse(st)[:60]!r} in {fn.name}")
         return VConst(None)
 
@@ -208,9 +228,19 @@ class ApiModel:
                 return VConst(("func", e.id))
             if e.id in ("b2c", "c2b"):
                 return VConst(e.id)
+            if e.id in self.consts:
+                return VInt(z3.IntVal(self.consts[e.id]))
             raise Untranslatable(f"name {e.id}")
         if isinstance(e, ast.Tuple):
             return VTuple([self.ev(x, env, ctx) for x in e.elts])
+        if isinstance(e, ast.Compare) and len(e.ops) == 1:
+            l, r = self.ev(e.left, env, ctx), self.ev(e.comparators[0], env, ctx)
+            if isinstance(l, VInt) and isinstance(r, VInt):
+                op = e.ops[0]
+                table = {ast.Gt: l.t > r.t, ast.GtE: l.t >= r.t, ast.Lt: l.t < r.t, ast.LtE: l.t <= r.t, ast.Eq: l.t == r.t, ast.NotEq: l.t != r.t}
+                if type(op) in table:
+                    return VBool(table[type(op)])
+            raise Untranslatable(f"comparison {ast.unparse(e)[:60]!r}")
         if isinstance(e, ast.Attribute):
             base = self.ev(e.value, env, ctx)
             if isinstance(base, VObj):
